@@ -61,16 +61,30 @@ def load_source(rel):
 
 
 def strip_attrs(text):
-    """R9: drop #[...] attributes inside an extracted type definition"""
+    """R9: drop #[...] attributes inside an extracted type definition; returns the dropped attributes (normalised)"""
     toks = rscan.tokenize(text)
     br = rscan.match_brackets(toks)
     edits = []
+    attrs = []
     for i, t in enumerate(toks):
         if t.text == "#" and i + 1 < len(toks) and toks[i + 1].text == "[":
             edits.append((t.pos, toks[br[i + 1]].end))
+            attrs.append(" ".join(x.text for x in toks[i:br[i + 1] + 1]))
     for a, b in sorted(edits, reverse=True):
         text = text[:a] + text[b:]
-    return text, len(edits)
+    return text, attrs
+
+
+def outer_attrs(src, s_tok):
+    """attributes written in front of an item (they are outside the extracted span)"""
+    t = src.toks
+    out = []
+    k = s_tok
+    while k >= 2 and t[k - 1].text == "]" and (k - 1) in src.br and src.br[k - 1] >= 1 and t[src.br[k - 1] - 1].text == "#":
+        a = src.br[k - 1] - 1
+        out.append(" ".join(x.text for x in t[a:k]))
+        k = a
+    return list(reversed(out))
 
 
 def make_pub(f):
@@ -134,8 +148,13 @@ def extract(region, unit_cfg):
     substs = unit_cfg.get("subst", {}).get(region.label)
     try:
         if region.kind == "type":
-            text2, n = strip_attrs(text)
+            text2, inner = strip_attrs(text)
             f = rules_mod.Frag(text2, "%s:%d" % (region.file, l0))
+            allattrs = outer_attrs(src, s) + inner
+            # what the ASSUMED decoding / default contracts of this type depend on: serde attributes and serde/Default derives
+            info["attrs"] = [a for a in allattrs if "serde" in a or ("derive" in a and ("Serialize" in a or "Deserialize" in a or "Default" in a))]
+            if inner:
+                f.log.append({"rule": "R9", "at": f.origin, "before": "%d attribute(s)" % len(inner), "after": ""})
             # R9: inside the single-file unit every extracted type and every struct field is `pub` (visibility has no
             # meaning there; Verus needs it for spec functions that read the fields)
             make_pub(f)
@@ -158,6 +177,8 @@ def build_unit(unit, scratch):
     tpl = os.path.join(udir, "unit.rs")
     cfg_path = os.path.join(udir, "unit.json")
     cfg = json.load(open(cfg_path)) if os.path.exists(cfg_path) else {}
+    ab = os.path.join(VERIF, "prelude", "type_attrs.json")
+    attr_base = json.load(open(ab)) if os.path.exists(ab) else None
     try:
         segs = splice.parse_unit(splice.expand_includes(open(tpl, encoding="utf-8").read(), VERIF), tpl)
     except (OSError, splice.SpliceError) as e:
@@ -207,6 +228,10 @@ def build_unit(unit, scratch):
             region = seg[1]
             real, log, info = extract(region, cfg)
             b.log += log
+            if region.kind == "type" and attr_base is not None:
+                want = attr_base.get(region.file + "::" + region.label)
+                if want is not None and want != info.get("attrs"):
+                    raise UnitError("the serde attributes of type %s changed (%s -> %s): the ASSUMED decoding contract of this type no longer describes it" % (region.label, want, info.get("attrs")))
             e_toks = [x[1] for x in region.items() if x[0] == "tok"]
             r_toks = splice.norm_tokens(rscan.tokenize(real))
             if e_toks == r_toks:
